@@ -133,6 +133,19 @@ template <unsigned N> static void scenario(const std::uint64_t (&pre)[N], opdesc
     PROP(d.remove(p), "C14: a later remove next to every key completes (no lock left held)");
   }
   unodb::this_thread().quiescent(); switch_thread(); unodb::this_thread().quiescent(); unodb::this_thread().quiescent(); switch_thread(); unodb::this_thread().quiescent(); unodb::this_thread().quiescent();
+#ifdef UNODB_DETAIL_WITH_STATS
+  {   // C10 after a concurrent phase, once all threads have quiesced: counters obey the conservation law of node classes and the leaf count equals the number of entries
+    const std::uint64_t n4 = d.template get_node_count<node_type::I4>(), n16 = d.template get_node_count<node_type::I16>(), n48 = d.template get_node_count<node_type::I48>(), n256 = d.template get_node_count<node_type::I256>();
+    const std::uint64_t g4 = d.template get_growing_inode_count<node_type::I4>(), g16 = d.template get_growing_inode_count<node_type::I16>(), g48 = d.template get_growing_inode_count<node_type::I48>(), g256 = d.template get_growing_inode_count<node_type::I256>();
+    const std::uint64_t s4 = d.template get_shrinking_inode_count<node_type::I4>(), s16 = d.template get_shrinking_inode_count<node_type::I16>(), s48 = d.template get_shrinking_inode_count<node_type::I48>(), s256 = d.template get_shrinking_inode_count<node_type::I256>();
+    PROP(n4 + g16 + s4 == g4 + s16, "C10: I4 count = created I4 + I16 shrunk to I4 - I4 grown to I16 - I4 dissolved (counters move only with structural events)");
+    PROP(n16 + g48 + s16 == g16 + s48, "C10: I16 count = I4 grown + I48 shrunk - I16 grown - I16 shrunk");
+    PROP(n48 + g256 + s48 == g48 + s256, "C10: I48 count = I16 grown + I256 shrunk - I48 grown - I48 shrunk");
+    PROP(n256 + s256 == g256, "C10: I256 count = I48 grown - I256 shrunk");
+    std::uint64_t entries = 0; for (unsigned i = 0; i < m0.n; i++) if ((ok1 ? m1 : m2).in[i]) entries++;
+    PROP(d.template get_node_count<node_type::LEAF>() == entries, "C10: reported number of leaves equals the number of entries after the concurrent phase");
+  }
+#endif
   OBSERVE(rA.ok); OBSERVE(rB.ok);
   WITNESS();
 }
